@@ -95,6 +95,17 @@ def run(chk):
         tcfg = cfg("trace_cap%d" % cap, spec="TraceSpec", post=True, Cap=cap, Pushers="{1,2,3}", NVals=99, NConsumes=999)
         total += vlib.validate_concat(chk, SPEC, "TraceReservoir", tcfg, tro, "overlapping consume() calls cap=%d" % cap, KNOWN)
         chk.cov["distinct_nontrivial"] += s5["distinct"]
+    # real-parallel hammer (pushers + consumer, small capacities): schedule-independent facts decided by TLC
+    for cap in (0, 1, 2, 4):
+        trh = chk.path("hammer_cap%d.ndjson" % cap)
+        rc, out, s6 = vlib.harness("c16", ["hammer", "--cap", cap, "--runs", 24 if thorough else 4, "--out", trh], env=env, timeout=900)
+        if rc != 0 or not s6:
+            chk.tool_error("c16 hammer failed", out)
+        if cap > 0 and s6["kilo_draws"] == 0:
+            chk.tool_error("c16 hammer: no overflowing push was observed", out)
+        tcfg = cfg("trace_cap%d" % cap, spec="TraceSpec", post=True, Cap=cap, Pushers="{1,2,3}", NVals=99, NConsumes=999)
+        total += vlib.validate_concat(chk, SPEC, "TraceReservoir", tcfg, trh, "real-parallel hammer cap=%d" % cap, KNOWN)
+        chk.notes["hammer_cap%d" % cap] = s6
     # spec -> impl: TLC schedules (no overflow, so no draw is needed to follow them) + the CF16c witness
     progs = chk.path("programs.ndjson")
     r = vlib.tlc_mc(SPEC, "SimReservoir", cfg("sim", spec="SimSpec", inv="Emit", Cap=2, Pushers="{1,2}", NVals=1, NConsumes=2),
